@@ -90,7 +90,7 @@ func (configgen *ConfigGeneratorImpl) BuildDeltaClusters(proxy *model.Proxy, upd
 	serviceClusters := make(map[string]sets.String)
 	// Holds service ports, keyed by hostname.Inner map port and its cluster name.
 	// This is mainly used when service is updated and a port has been removed.
-	servicePortClusters := make(map[string]map[int]string)
+	servicePortClusters := make(map[string]map[int][]string)
 	// Holds subset clusters per service, keyed by hostname.
 	subsetClusters := make(map[string]sets.String)
 
@@ -111,9 +111,10 @@ func (configgen *ConfigGeneratorImpl) BuildDeltaClusters(proxy *model.Proxy, upd
 				sets.InsertOrNew(subsetClusters, string(svcHost), cluster)
 			}
 			if servicePortClusters[string(svcHost)] == nil {
-				servicePortClusters[string(svcHost)] = make(map[int]string)
+				servicePortClusters[string(svcHost)] = make(map[int][]string)
 			}
-			servicePortClusters[string(svcHost)][port] = cluster
+			// a port has one cluster per subset plus the subset-less one: keep them all
+			servicePortClusters[string(svcHost)][port] = append(servicePortClusters[string(svcHost)][port], cluster)
 		}
 	}
 	have := sets.String{}
@@ -163,7 +164,7 @@ func (configgen *ConfigGeneratorImpl) BuildDeltaClusters(proxy *model.Proxy, upd
 
 // deltaFromServices computes the delta clusters from the updated services.
 func (configgen *ConfigGeneratorImpl) deltaFromServices(key model.ConfigKey, proxy *model.Proxy, push *model.PushContext,
-	serviceClusters map[string]sets.String, servicePortClusters map[string]map[int]string, subsetClusters map[string]sets.String,
+	serviceClusters map[string]sets.String, servicePortClusters map[string]map[int][]string, subsetClusters map[string]sets.String,
 ) ([]*model.Service, []string) {
 	var deletedClusters []string
 	var services []*model.Service
@@ -182,10 +183,10 @@ func (configgen *ConfigGeneratorImpl) deltaFromServices(key model.ConfigKey, pro
 		}
 		// Service exists. If the service update has port change, we need to the corresponding port clusters.
 		services = append(services, service)
-		for port, cluster := range servicePortClusters[service.Hostname.String()] {
-			// if this service port is removed, we can conclude that it is a removed cluster.
+		for port, clusters := range servicePortClusters[service.Hostname.String()] {
+			// if this service port is removed, we can conclude that all of its clusters are removed.
 			if _, exists := service.Ports.GetByPort(port); !exists {
-				deletedClusters = append(deletedClusters, cluster)
+				deletedClusters = append(deletedClusters, clusters...)
 			}
 		}
 	}
